@@ -18,7 +18,9 @@ const safeDurationBeforeNextStage = 20 * time.Millisecond
 func newStagesWorker(stages []runnableStage) api.WorkTriggerer {
 	return func(ctx context.Context, output *ui.Output, workers *workers.PoolManager, options options.RunOptions) {
 		for _, stage := range stages {
-			if ctx.Err() != nil {
+			// nothing more may start once the iteration limit has been reached: do not sit
+			// out the remaining stages (one whose rate is zero would never notice the limit)
+			if ctx.Err() != nil || workers.MaxIterationsReached() {
 				return
 			}
 			runStage(ctx, output, workers, stage, options)
